@@ -334,6 +334,33 @@ CLAIMED["C05"]["text"] += " Round 5: IMA / MS ADPCM write contract (counts, fram
 CLAIMED["C04"]["text"] += " Round 5: geometry of the ADPCM block files (block-size rule at every sample-rate threshold incl. the int-wrapping products, N <= F < N + B) proved on the write-side model (adpcm_geometry, adpcm_closed_length, adpcm_frames_at_reopen) and checked by vlib/adpcmenc.py."
 CLAIMED["C02"]["text"] += " Round 5: the int -> short and normalised double -> short conversions in front of the IMA / MS ADPCM encoders are checked on library-written files (vlib/adpcmenc.py, predicate 'narrow'; theorem adpcm_int_narrowing)."
 
+# ---- round 5 (worker codecs2): G.721 / G.723, NMS ADPCM, GSM 06.10 — tables by execution, closed forms, conformance facts, codec state per handle ----
+_C2_TABLES = (" Round 5: the NMS and GSM tables are extracted by execution on every run like the G.72x ones (vlib/codectab.py -> Generated/NmsTables.lean, GsmTables.lean; one theorem per table, "
+              "nms_tables_extracted / gsm_tables_extracted / gsm_bitoff_extracted, SfProps/C20CodecTables.lean); when an entry differs the campaign of vlib/codecs20.py looks for an input whose "
+              "decode / encode by the tree leaves the published-table model.")
+for _p in ("C05", "C06", "C07"):
+    CLAIMED[_p]["text"] += _C2_TABLES
+CLAIMED["C07"]["text"] += (
+    " Closed form of a written G.72x / NMS / GSM file (SfProps/C07CodecsClosed.lean, generic block_writer_closed_form): data region = encodeBlock over the spb-chunks of the zero-padded converted "
+    "samples with the encoder state threaded, its byte length, frames at re-open derived from that length, the re-opened stream as a function of the written samples. NMS: whole-list unpack24 . pack24, "
+    "pack/unpack on the encoder's codewords for all rates, block round trip (C07NmsBlock.lean). GSM encoder: int32 accumulations never overflow for any block (C07GsmEncSums.lean).")
+CLAIMED["C06"]["text"] += (
+    " Reads crossing the end of data (clamp + zero tail) for NMS and GSM through both staging loops, from the generic readLoop_general (SfProps/C06CodecsPastEnd.lean). GSM decoder: a wrap-free twin "
+    "of the whole decoder equals the wrapping one on every invariant state and any bytes (gsm_decoder_never_wraps, SfProps/C06GsmNoWrap.lean).")
+CLAIMED["C05"]["text"] += " nms_read_any / gsm_read_any: return value min (n, frames - position), stream then zeros, for every caller type (SfProps/C06CodecsPastEnd.lean); LIMC upper comparison dead (C20G72x.lean)."
+CLAIMED["C04"]["text"] += (" Round 5: for G.72x / NMS / GSM the frame count at re-open is derived from the closed form of the written data region: F = ceil (N / spb) * spb, hence N <= F < N + spb "
+                           "(g72x_ / nms_ / gsm_frames_at_reopen_closed, SfProps/C07CodecsClosed.lean).")
+CLAIMED["C19"]["text"] += (
+    " Round 5: Sf.CodecWorld (a slot table whose slots hold the codec side of a handle for G.72x / NMS / GSM and whose step runs the real model functions): codec_state_is_per_handle, codec_step_local, "
+    "codec_interleaving_irrelevant (SfProps/C19Codec.lean); campaign vlib/codecpairs.py: every pair of the nine codec classes (a class with itself included), two live handles, merged vs solo.")
+if "C20" in CLAIMED:
+    CLAIMED["C20"]["text"] += (
+        " Round 5: G.721 / G.723, NMS ADPCM and GSM 06.10 join the conformance claim: tables tied to the tree by execution (g72x_published_tables, nms_tables_extracted, gsm_tables_extracted), sampled "
+        "encode / decode streams through the public API against the models with the published tables (vlib/codecs20.py), G.72x spec facts (ITU block names, quantiser monotone, reconstruction level in its "
+        "cell, LIMC / LIMD / LIMB limits, decoder tracks encoder for all four rates after the repair of KF-G721-ENC-SE; SfProps/C20G72x.lean, C20G72xTrack.lean), GSM 06.10 section 5.1 arithmetic as spec "
+        "operators proved equal to the macro-shaped code on int16 (add, sub, abs, mult, mult_r, L_mult, L_add, norm, div; the macro GSM_MULT_R differs from mult_r only at (MIN, MIN), never evaluated "
+        "there by the decoder; SfProps/C20Gsm.lean).")
+
 def main():
     checks = []
     for p in PROPS:
